@@ -128,8 +128,8 @@ def run_shift(case):
 
 @st.composite
 def shift_cases(draw):
-    n = draw(st.integers(4, 64))
-    nb = draw(st.sampled_from([1, 1, 2, 3]))
+    n = gen.grid_size(draw, 4, 64, one_in=32)
+    nb = draw(st.sampled_from([1, 1, 2, 3])) if n < 200 else draw(st.sampled_from([1, 2]))
     it = draw(st.sampled_from([1, 2, 3, 4]))
     axis = draw(st.sampled_from([0, 1]))
     lo, hi = -(n // 2), n - 1 - n // 2
@@ -218,7 +218,7 @@ def run_poly(case):
 
 @st.composite
 def poly_cases(draw):
-    n = draw(st.integers(8, 64))
+    n = gen.grid_size(draw, 8, 64, one_in=32)
     it = draw(st.sampled_from([1, 2, 3, 4]))
     axis = draw(st.sampled_from([0, 1]))
     nb = draw(st.sampled_from([1, 1, 2]))
